@@ -124,6 +124,13 @@ func lex(src string) ([]tok, error) {
 			for j < len(src) && (src[j] >= '0' && src[j] <= '9' || src[j] == '_' || src[j] == 'x' || (src[j] >= 'a' && src[j] <= 'f' && j > i+1 && strings.HasPrefix(src[i:], "0x")) || (src[j] >= 'A' && src[j] <= 'F' && strings.HasPrefix(src[i:], "0x"))) {
 				j++
 			}
+			// fraction: a real literal
+			if j+1 < len(src) && src[j] == '.' && src[j+1] >= '0' && src[j+1] <= '9' {
+				j++
+				for j < len(src) && src[j] >= '0' && src[j] <= '9' {
+					j++
+				}
+			}
 			toks = append(toks, tok{"int", strings.ReplaceAll(src[i:j], "_", ""), i})
 			i = j
 		case c == '"':
